@@ -132,3 +132,58 @@ PROPS["C13"] = {
         "note": "Trusted: gosym executor, z3; sort.Slice modelled as insertion sort calling the real less closure. Two genuine defects found by this check were repaired (known_findings.json 'fixed').",
     },
 }
+
+
+# ---------------------------------------------------------------- family G
+import os as _os, concurrent.futures as _cf
+
+
+def g_prepare(P, tier, tmp, seed, infra):
+    """Runs the real generator on every catalogue design of the property and returns the jobs."""
+    import gdesign
+    repo = _os.environ.get("VERIF_REPO", "/repo")
+    designs = P["designs"](tier) if callable(P["designs"]) else P["designs"]
+    jobs = []
+    with _cf.ThreadPoolExecutor(max_workers=8) as ex:
+        futs = {d: ex.submit(gdesign.generate, d, repo, tmp, P.get("protoc_dir")) for d in designs}
+    P["_programs"] = 0
+    P["_design_errors"] = {}
+    for d in designs:
+        moddir, err = futs[d].result()
+        if err:
+            P["_design_errors"][d] = err
+            infra.append(f"design {d}: generator failed: {err[-600:]}")
+            continue
+        P["_programs"] += 1
+        V = _os.path.dirname(_os.path.abspath(__file__))
+        ddir = _os.path.join(V, "designs", d)
+        files = sorted(_os.path.join(ddir, f) for f in _os.listdir(ddir) if f.startswith("zz_h_" + P["harness_tag"]) and f.endswith(".go"))
+        if not files:
+            continue
+        jobs.append({"name": "g_" + d, "moddir": moddir, "pkg": "vdesign/vh", "pkgdir": "vh", "pkgname": "vh", "harness_dir": "g",
+                     "files": files, "support": ["zz_stubs.go"], "extra_decl": ["zz_decl_g.go"], "extra_replay": ["zz_replay_g.go"],
+                     "quick": P["quick"], "thorough": P["thorough"], "shards": P.get("shards", {})})
+    return jobs
+
+
+PROPS["C04"] = {
+    "level": "translation_validation",
+    "prepare": g_prepare,
+    "jobs": [],
+    "designs": ["v1", "v2", "v3"],
+    "harness_tag": "c04",
+    "quick": r"^VerifC04_", "thorough": r"^VerifC04T?_",
+    "bounds": {"designs": {"v1": "ints: body Int min/max required, Int64 enum; query Int min; path Int max; header Int32 min",
+                           "v2": "floats: exclusive min+max, min, query Int/Float64 exclusive max, UInt max; strings: rune min/max length, enum, pattern, ipv4 format, header max length",
+                           "v3": "array min/max length + element min, map length + key length + elem max, required nested user type, array of user types, map key pattern inside nested user type, query array min length"},
+               "values": "every numeric leaf a full-width symbolic integer/float; strings up to 4 symbolic bytes (valid UTF-8); parameter texts = decimal rendering of an arbitrary number | junk | absent; arrays up to 3 elements, maps up to 2 entries; body: JSON document | empty | malformed"},
+    "assumptions": ["JSON decoding of the request body into the generated body struct follows encoding/json's documented struct mapping (absent/null -> nil pointer); modelled by the harness filling the body struct",
+                    "strconv Format/Parse are inverse (exact in the executor through provenance, real text in native replays)",
+                    "the router hands non-empty single-segment captures to the decoder (C16)"],
+    "outside": ["designs outside the catalogue (the generator cannot be executed on a symbolic design)", "present-but-empty parameter texts", "XML/gob/form/multipart bodies, websocket streaming",
+                "client-side validation of responses (C03 harnesses)", "text of error messages"],
+    "manifest": {
+        "text": "Translation validation of the code the real generator emits for each catalogue design: the generated server handler (NewXHandler, DecodeXRequest, ValidateX*, NewXPayload, goa's ErrorEncoder/NewErrorResponse/MergeErrors and validators, all interpreted from SSA) is run on a fully symbolic wire request and the solver decides, for all values within the bounds, that the service endpoint runs iff an oracle written from the design (not derived from goa) accepts the request, that a rejected request gets exactly one 400 response whose error name is one of the violated rules, and that an accepted payload carries the wire values. Over designs the claim is only 'every design of the catalogue'.",
+        "note": "Trusted: gosym executor, z3, the hand-written oracle of each catalogue design. Regenerated from /repo on every run in a scratch module (replace goa => /repo). Four genuine divergences are listed in known_findings.json.",
+    },
+}
